@@ -263,17 +263,25 @@ pub fn handle(op: &str, a: &[&str]) -> Option<String> {
             Some(show_snf(&s))
         }
         // SmithNormalForm::new on sparse relations: answer h, gens, dense rows
-        ("im_snf_new", [rels, hmin, hmax, _h]) => {
+        ("im_snf_new", [rels, hmin, hmax]) => {
             let rels = sparse_of(rels)?;
             let s = SmithNormalForm::new(&rels, vec![], f64_of(hmin)?, f64_of(hmax)?);
             Some(format!("{} {} {}", s.h, show_list(&s.gens), show_mat(&s.rows)))
         }
-        // new + reduce: answer h and the final state
-        ("im_snf", [rels, hmin, hmax, _h]) => {
+        // new + reduce: answer h and the final state; `refused-reduce h` when reduce() panics
+        // (a panic inside new(), i.e. in compute_lattice_index, answers `panic`)
+        ("im_snf", [rels, hmin, hmax]) => {
             let rels = sparse_of(rels)?;
             let mut s = SmithNormalForm::new(&rels, vec![], f64_of(hmin)?, f64_of(hmax)?);
-            s.reduce();
-            Some(format!("{} {}", s.h, show_snf(&s)))
+            let h = s.h;
+            let r = std::panic::catch_unwind(std::panic::AssertUnwindSafe(move || {
+                s.reduce();
+                s
+            }));
+            Some(match r {
+                Ok(s) => format!("{} {}", s.h, show_snf(&s)),
+                Err(_) => format!("refused-reduce {}", h),
+            })
         }
         // ---------------------------------------------------------------- sparse matrices
         ("im_sparse_norm", [rows]) => Some(hs::norm(&SparseMat::new(sparse_of(rows)?)).to_string()),
